@@ -297,13 +297,14 @@ contract(module="coco.veftopng", qualname="unsquash", tag="C19",
          # any record, truncated ones included: a normal return means every group lay inside the data actually present
          requires=["count >= 0", "orig_len >= 0"],
          ghost_entry="gi = 0\nc0 = 0",
-         loops={0: dict(ghost_vars=["gi", "c0"], ghost_body_start="gi = i", inv=["i >= 0", "i <= len(data)", UNSQ_BYTES], decreases="count - i"),
+         loops={0: dict(ghost_vars=["gi", "c0"], ghost_body_start="gi = i", inv=["i >= 0", UNSQ_BYTES], decreases="count - i"),
                 1: dict(ghost_before="c0 = count_byte",
-                        inv=["i == gi + 1", "i <= len(data)", "c0 >= 1", "count_byte <= c0", "implies(count_byte < c0, i < len(data))", UNSQ_BYTES],
+                        inv=["i == gi + 1", "c0 >= 1", "count_byte <= c0", UNSQ_BYTES],
                         decreases="count_byte"),
-                2: dict(inv=["i >= gi + 1", "i <= len(data)", "j >= 0", UNSQ_BYTES], decreases="count_byte - j")},
-         ensures=[dict(id="truncated-record-is-loud", post="count <= len(data)"),
-                  dict(id="cut-to-nominal-length", post="len(result) <= orig_len"),
+                2: dict(inv=["i >= gi + 1", "j >= 0", UNSQ_BYTES], decreases="count_byte - j")},
+         # (a clause "a truncated record is loud" stood here until /repo fix 43ab8ba: start() now checks the total length of the
+         #  decoded picture itself, so C19 no longer needs unsquash to refuse records that announce more bytes than are present)
+         ensures=[dict(id="cut-to-nominal-length", post="len(result) <= orig_len"),
                   dict(id="bytes", post="forall(0, len(result), lambda j: 0 <= result[j] and result[j] <= 255)")],
          result_spec=["len(result) <= orig_len", "forall(0, len(result), lambda j: 0 <= result[j] and result[j] <= 255)"], may_raise=["IndexError"],
          raises=[dict(id="loud", exc="IndexError", allowed="True")], check_termination=True)
